@@ -12,6 +12,12 @@ func vMetaTorrent() (*Torrent, uint32) {
 	h := hash.Hash(vBytes("hash", 20))
 	vAssume(len(h) == 20)
 	t := &Torrent{Hash: h}
+	if vBool("resized") {
+		// the size guess has changed once already (peers disagree on the metadata size)
+		size0 := vU32("size0")
+		vAssume(size0 >= 1 && size0 <= 3*16384+77)
+		vAssume(resizeMetadata(t, size0) == nil)
+	}
 	size := vU32("size")
 	vAssume(size >= 1 && size <= 3*16384+77)
 	vAssume(resizeMetadata(t, size) == nil)
